@@ -483,7 +483,12 @@ impl Expression {
                 PathAnalysisState::NotInPath
             }
             Expression::LitFloat { value: x, .. } => {
-                write!(value, "{}", x)?;
+                if x.is_infinite() {
+                    // `f64::INFINITY` is displayed as `inf` , which is an identifier in JavaScript
+                    write!(value, "Infinity")?;
+                } else {
+                    write!(value, "{}", x)?;
+                }
                 PathAnalysisState::NotInPath
             }
             Expression::LitBool { value: x, .. } => {
